@@ -183,6 +183,10 @@ def run(prog: Program, rep, tier="quick"):
                ": one side now refuses (or accepts) inputs the other side does not", pydef.node.lineno)
         rep.ob("R15.5", rrel, rfn.name, "the Rust twin constructs the same number of errors as when it was confirmed against the Python twin",
                cur["rust_errors"] == ref["rust_errors"], f"{cur['rust_errors']} error sites, confirmed {ref['rust_errors']}", rfn.line)
+    # ---- R15.6 the delta encoders are twins as well: their constants, splitting loops and varint form agree (shared with R03.5)
+    from sa.common import share
+    share(rep, lambda: c03.run(prog, rep, tier), "R15.6", lambda o: o.rule == "R03.5",
+          "TABLE-AGREE between the Python and the Rust delta encoder (shared with R03.5): copy limit, insert cap, split loops, op layout, size varint")
     # ---- R15.2
     n_calls = 0
     for (rel, public), (pydef, rfn, rrel) in sorted(duals.items()):
